@@ -76,35 +76,73 @@ def discover(proto, n, t, seed=0):
 ADV_VARIANTS = ("h", "e1", "e2", "mut", "junk")
 
 
+def _limit_mem():
+    import resource
+    lim = 12 * 1024 ** 3
+    resource.setrlimit(resource.RLIMIT_AS, (lim, lim))
+
+
 def run_adversarial(wd, scenarios, tag, seed=0, timeout=3000, shards=1):
-    """Runs hadv on the scenarios (list of dicts, each with a unique 'id'), validates every trace group with TLC.
-    Returns (outcomes by id, list of trace problems, tlc stats)."""
-    import subprocess
+    """Runs hadv on the scenarios (list of dicts, each with a unique 'id') in parallel shards, validates every trace
+    group with TLC. A shard whose process dies (fatal runtime error in the code under test: out of memory, stack
+    overflow, deadlock) is resumed after the scenario that killed it, which is reported as an outcome with a
+    'process-killed' violation. Returns (outcomes by id, list of trace problems, tlc stats)."""
+    import subprocess, glob, time
     hadv = os.path.join(vlib.HBIN, "hadv")
-    procs = []
-    for sh in range(shards):
-        part = scenarios[sh::shards]
-        if not part:
-            continue
-        sf = os.path.join(wd, "%s_%d.scen.jsonl" % (tag, sh))
+
+    def start(sh, gen, part):
+        t = "%s%d_%d_" % (tag, sh, gen)
+        sf = os.path.join(wd, t + "scen.jsonl")
         with open(sf, "w") as fh:
             for s in part:
                 fh.write(json.dumps(s) + "\n")
-        procs.append((sh, subprocess.Popen([hadv, "-scen", sf, "-out", wd, "-tag", "%s%d" % (tag, sh), "-seed", str(seed)],
-                                           env=vlib.GOENV, stdout=subprocess.PIPE, stderr=subprocess.PIPE, text=True)))
+        p = subprocess.Popen([hadv, "-scen", sf, "-out", wd, "-tag", t, "-seed", str(seed)], env=vlib.GOENV,
+                             stdout=subprocess.PIPE, stderr=subprocess.PIPE, text=True, preexec_fn=_limit_mem)
+        return {"sh": sh, "gen": gen, "part": part, "tag": t, "p": p}
+
+    running = [start(sh, 0, scenarios[sh::shards]) for sh in range(shards) if scenarios[sh::shards]]
     outcomes, groups = {}, []
-    for sh, p in procs:
+    deadline = time.time() + timeout
+    while running:
+        job = running.pop(0)
         try:
-            out, err = p.communicate(timeout=timeout)
+            out, err = job["p"].communicate(timeout=max(1, deadline - time.time()))
         except subprocess.TimeoutExpired:
-            p.kill()
+            job["p"].kill()
+            for j in running:
+                j["p"].kill()
             raise vlib.Inconclusive("hadv timed out")
-        if p.returncode != 0:
-            raise vlib.Inconclusive("hadv failed: %s" % (out + err)[-2000:])
-        summ = json.load(open(os.path.join(wd, "%s%d_summary.json" % (tag, sh))))
-        for o in summ["outcomes"]:
-            outcomes[o["id"]] = o
-        groups += summ["groups"]
+        t = job["tag"]
+        of = os.path.join(wd, t + "_outcomes.jsonl")
+        if os.path.exists(of):
+            for line in open(of):
+                if line.strip():
+                    o = json.loads(line)
+                    outcomes[o["id"]] = o
+        for mf in glob.glob(os.path.join(wd, t + "_*.ndjson.meta")):
+            groups.append(json.load(open(mf)))
+        if job["p"].returncode == 0:
+            continue
+        prog = os.path.join(wd, t + "_progress")
+        cur = open(prog).read().strip() if os.path.exists(prog) else ""
+        if job["p"].returncode == 2 and "hadv:" in err:
+            raise vlib.Inconclusive("hadv failed: %s" % err[-2000:])
+        if not cur.isdigit():
+            raise vlib.Inconclusive("hadv died without progress information: %s" % (out + err)[-2000:])
+        cur = int(cur)
+        why = (err.strip().splitlines() or ["killed"])[0][:200]
+        site = ""
+        for l in err.splitlines():
+            l = l.strip()
+            if "multi-party-sig/" in l and "verifharness" not in l and "(" in l and not l.startswith("/"):
+                site = l[:l.rfind("(")].replace("github.com/taurusgroup/multi-party-sig/", "")
+                break
+        outcomes[cur] = {"id": cur, "applicable": True, "reached": True, "status": {}, "events": 0,
+                         "viol": [{"prop": "C05", "what": "process-killed", "site": site,
+                                   "detail": "the whole process died while an honest party handled this input: %s (rc=%s)" % (why, job["p"].returncode)}]}
+        rest = [s for s in job["part"] if s["id"] not in outcomes]
+        if rest and job["gen"] < 40:
+            running.append(start(job["sh"], job["gen"] + 1, rest))
     # merge the shards' trace files per (proto, n, byz): one TLC configuration per group
     merged = {}
     reset = json.dumps({"ev": "Reset", "i": "", "can": False, "ign": False, "post": {"rnd": 0, "st": "", "ek": "", "culp": [], "cur": 0},
